@@ -427,6 +427,39 @@ def g_or(gs):
     return ("or", tuple(out))
 
 
+def _cond_alternatives(v):
+    """[(guard, value)] if `v` is a conditional value (possibly under reversed / list / sorted / tuple), else None."""
+    if not isinstance(v, Poly):
+        return None
+    a = v.as_atom()
+    if a is None:
+        return None
+    if a[0] == "cond":
+        out = []
+        for g, k in a[1]:
+            if _is_polykey(k):
+                out.append((g, poly_from_key(k)))
+            elif isinstance(k, tuple) and k and k[0] == "list":
+                out.append((g, AList([poly_from_key(x) if _is_polykey(x) else Poly.atom(x) for x in k[1]])))
+            elif isinstance(k, tuple) and k and k[0] == "tuple":
+                out.append((g, ATuple([poly_from_key(x) if _is_polykey(x) else Poly.atom(x) for x in k[1:]])))
+            else:
+                return None
+        return out
+    if a[0] == "call" and a[1] in ("reversed", "list", "tuple") and len(a[2]) == 1 and not a[3] and _is_polykey(a[2][0]):
+        inner = _cond_alternatives(poly_from_key(a[2][0]))
+        if inner is None:
+            return None
+        out = []
+        for g, v2 in inner:
+            if isinstance(v2, (AList, ATuple)) and not getattr(v2, "doms", None):
+                out.append((g, type(v2)(list(reversed(v2.items)) if a[1] == "reversed" else list(v2.items))))
+            else:
+                out.append((g, Poly.atom(("call", a[1], (vkey(v2),), ()))))
+        return out
+    return None
+
+
 def abstract_len(v):
     """Length term of an abstract list built over symbolic domains."""
     if any(_maybe_absent(x) for x in v.items):
@@ -773,7 +806,10 @@ class Frame:
         if isinstance(s, ast.Assign):
             v = self.eval(s.value, st)
             for t in s.targets:
-                self.assign(t, v, st)
+                if isinstance(t, ast.Name):
+                    self.assign(t, v, st, alias_ok=isinstance(s.value, ast.Attribute))
+                else:
+                    self.assign(t, v, st)
             return [(st, ("fall",))]
         if isinstance(s, ast.AnnAssign):
             if s.value is not None:
@@ -782,7 +818,14 @@ class Frame:
         if isinstance(s, ast.AugAssign):
             cur = self.eval(_load(s.target), st)
             rhs = self.eval(s.value, st)
-            self.assign(s.target, self.binop(s.op, cur, rhs), st)
+            new = self.binop(s.op, cur, rhs)
+            alias = st.env.get(("@alias", s.target.id)) if isinstance(s.target, ast.Name) else None
+            self.assign(s.target, new, st)
+            if alias is not None:
+                # `a = obj.attr; a += v`: an in-place update of the array the attribute holds (numpy semantics):
+                # the attribute's content changes although no store to the attribute is written
+                st.env[("@alias", s.target.id)] = alias
+                self.I.events.append(Event("store_content", [alias, new], {}, st.guards, s))
             return [(st, ("fall",))]
         if isinstance(s, ast.Return):
             return [(st, ("return", self.eval(s.value, st) if s.value is not None else None))]
@@ -829,6 +872,24 @@ class Frame:
 
     def exec_for(self, s, st):
         it = self.eval(s.iter, st)
+        alts = _cond_alternatives(it)
+        if alts is not None and len(alts) <= 4:
+            # the sequence is one of several (a helper returned `[x]` on one path and a list on another): run the
+            # loop once per alternative under its guard, as if the paths had never been merged
+            outs = []
+            neg = []
+            for g, v in alts:
+                gg = known_truth(g_and(neg + [g]) if neg else g, st.guards)
+                neg.append(g_not(g))
+                if gg == FALSE:
+                    continue
+                st2 = st.fork(gg) if gg != TRUE else State(st.env, st.guards)
+                outs += self._exec_for_iter(s, st2, v)
+            if outs:
+                return outs
+        return self._exec_for_iter(s, st, it)
+
+    def _exec_for_iter(self, s, st, it):
         elems = self.domain_elements(it, s.iter)
         concrete = isinstance(it, (AList, ATuple, ADict)) and not getattr(it, "doms", None)
         if not concrete:
@@ -934,9 +995,14 @@ class Frame:
         return [Poly.atom(("elem", dk, i)) for i in range(K_ELEMS)]
 
     # ------------------------------------------------------------ assignment
-    def assign(self, target, v, st):
+    def assign(self, target, v, st, alias_ok=False):
         if isinstance(target, ast.Name):
             st.env[target.id] = v
+            a = v.as_atom() if isinstance(v, Poly) else None
+            if alias_ok and a is not None and a[0] == "attr":
+                st.env[("@alias", target.id)] = v
+            elif not alias_ok:
+                st.env.pop(("@alias", target.id), None)
             return
         if isinstance(target, (ast.Tuple, ast.List)):
             items = self.unpack(v, len(target.elts))
@@ -1681,6 +1747,13 @@ class Frame:
         return args, kwargs
 
     def opaque_mcall(self, name, recv, args, kwargs, st, node):
+        if name == "pop" and len(args) == 1 and not kwargs and isinstance(recv, Poly):
+            ra = recv.as_atom()
+            if ra is not None and ra[0] == "attr":
+                # `x = obj.table.pop(k)` is `x = obj.table[k]; del obj.table[k]` (for a mapping and for a list)
+                val = Poly.atom(("sub", vkey(recv), vkey(args[0])))
+                self.I.events.append(Event("del", [val], {}, st.guards, node))
+                return val
         args, kwargs = self._positionalise(name, args, kwargs, True)
         self.I.events.append(Event("." + name, args, kwargs, st.guards, node, recv=recv))
         if name == "sum" and not args and not kwargs:
